@@ -204,3 +204,99 @@ func H_C19_string(k int) {
 	}
 	vReach("end")
 }
+
+// H_C19_state: the message state is constructed directly (the representation
+// invariant of ParseHeaders - PFlags = set of header types seen, checked in
+// C07 - is established by construction): h stored headers of symbolic types
+// (every type 1..14) and symbolic long/compact form. The signature must not
+// change when a non-fingerprinted header is inserted at a symbolic position,
+// when a fingerprinted header is repeated at the end, and a shorter header
+// array gives the same signature or ErrHdrTrunc.
+func H_C19_state(h int, method int) {
+	buf := []byte("abc@1.2.3.4 tagx z9hG4bKa-1.b_2")
+	var m, m2, m3 PSIPMsg
+	var hs, hs2, hs3 [8]Hdr
+	ins := vChoice(h + 1)
+	n2 := 0
+	for i := 0; i < h; i++ {
+		t := HdrT(1 + vChoice(14))
+		nl := OffsT(1 + vChoice(2))
+		hd := Hdr{Type: t, Name: PField{Offs: 0, Len: nl}, Val: PField{Offs: 17, Len: 14}}
+		hs[i] = hd
+		m.HL.PFlags.Set(t)
+		if i == ins {
+			hs2[n2] = Hdr{Type: HdrOther, Name: PField{Offs: 0, Len: 3}, Val: PField{Offs: 0, Len: 3}}
+			n2++
+		}
+		hs2[n2] = hd
+		n2++
+	}
+	if ins == h {
+		hs2[n2] = Hdr{Type: HdrOther, Name: PField{Offs: 0, Len: 3}, Val: PField{Offs: 0, Len: 3}}
+		n2++
+	}
+	// a repeat of the first header type at the very end
+	hs2[n2] = Hdr{Type: hs[0].Type, Name: PField{Offs: 0, Len: 2}, Val: PField{Offs: 12, Len: 4}}
+	n2++
+	for _, x := range []*PSIPMsg{&m, &m2, &m3} {
+		x.Buf = buf
+		x.FL.MethodNo = SIPMethod(method)
+		x.FL.Method = PField{Offs: 0, Len: 3}
+		x.PV.Callid.CallID = PField{Offs: 0, Len: 11}
+		x.PV.From.Tag = PField{Offs: 12, Len: 4}
+	}
+	m.HL.Hdrs, m.HL.N = hs[:h], h
+	m2.HL.Hdrs, m2.HL.N = hs2[:n2], n2
+	m2.HL.PFlags = m.HL.PFlags
+	m2.HL.PFlags.Set(HdrOther)
+	s1, r1 := GetMsgSig(&m)
+	s2, r2 := GetMsgSig(&m2)
+	vAssert("signature-produced", r1 == ErrHdrOk && r2 == ErrHdrOk)
+	vAssert("unchanged-by-other-and-repeated-headers", s1 == s2)
+	sigPost(&s1)
+	// shorter array, same counters
+	cut := vChoice(h + 1)
+	copy(hs3[:], hs[:])
+	m3.HL.Hdrs, m3.HL.N, m3.HL.PFlags = hs3[:cut], h, m.HL.PFlags
+	s3, r3 := GetMsgSig(&m3)
+	vAssert("short-array-same-or-truncated", (r3 == ErrHdrOk && s3 == s1) || r3 == ErrHdrTrunc)
+	if cut == h {
+		vAssert("all-fit-same", r3 == ErrHdrOk && s3 == s1)
+	}
+	vReach("end")
+}
+
+// H_C19_via: messages that agree on everything the signature fingerprints
+// (same first-Via branch) but differ in what follows the branch inside the
+// first Via header (a second comma-separated Via value, a further parameter)
+// or carry the second Via in a header of its own: same signature.
+func H_C19_via(w int) {
+	br := vBytes(w)
+	for i := range br {
+		c := br[i]
+		vAssume(isAlnum(c) || c == '-' || c == '.' || c == '_' || c == '+')
+	}
+	mk := func(tail string) []byte {
+		b := []byte(c19Heads[0])
+		b = append(b, "Via: SIP/2.0/UDP h;branch=z9hG4bK"...)
+		b = append(b, br...)
+		b = append(b, tail...)
+		b = append(b, "\r\nf: <sip:a>;tag=x1\r\nTo: <sip:b>\r\ni: ab\r\nCSeq: 1 INVITE\r\n\r\n"...)
+		return b
+	}
+	tails := [...]string{"", ", SIP/2.0/UDP g;branch=z9hG4bKzz", ";rport", " , SIP/2.0/TCP g", "\r\nVia: SIP/2.0/UDP g;branch=z9hG4bKzz"}
+	var sigs [len(tails)]MsgSig
+	for i := range tails {
+		var m PSIPMsg
+		var hs [12]Hdr
+		e := msgOf(mk(tails[i]), &m, hs[:])
+		vAssert("parses", e == 0)
+		s, r := GetMsgSig(&m)
+		vAssert("signature-produced", r == ErrHdrOk)
+		sigs[i] = s
+	}
+	for i := 1; i < len(tails); i++ {
+		vAssert("same-first-via-branch-same-signature", sigs[i] == sigs[0])
+	}
+	vReach("end")
+}
